@@ -3,6 +3,7 @@ package props
 import (
 	"astverif/crcgate"
 	"astverif/layout"
+	"astverif/ownership"
 	"astverif/tables"
 )
 
@@ -33,6 +34,8 @@ func c09(c *Ctx) {
 	r.Floor("T1", "truth-table obligations imported into C09", len(r.Obls)-before, 20)
 	r.Count("t1_obligations", len(r.Obls)-before)
 	c09Lengths(c)
+	// "never a silently altered table": a delivered table does not alias the pooled payload buffer (rule S3 of C16)
+	r.Floor("S3", "borrowed/owned byte-slice source sites", ownership.BorrowTaint(c.P, r), 10)
 }
 
 // c09Lengths is rule (e): section_length = the bytes emitted after it, proven level by level (assume-guarantee:
